@@ -299,6 +299,7 @@ pub fn shrink_wfault(f: &crate::faults::WFault, removed: Option<(usize, Option<u
     Some(match f {
         WFault::WireValue { at, which, d } => WFault::WireValue { at: follow_at(*at, r)?, which: *which, d: d.clone() },
         WFault::Constant { at, d } => WFault::Constant { at: follow_at(*at, r)?, d: d.clone() },
+        WFault::ConstantPair { at1, at2, d } => WFault::ConstantPair { at1: follow_at(*at1, r)?, at2: follow_at(*at2, r)?, d: d.clone() },
         WFault::CommitValue { at, d } => WFault::CommitValue { at: follow_at((*at, None), r)?.0, d: d.clone() },
         other => other.clone(),
     })
